@@ -510,7 +510,12 @@ func redirMarshalerEncoder(e *encodeState, v reflect.Value, opts encOpts) {
 		return
 	}
 
-	e.marshal(iv, opts)
+	// marshal recovers the encoder's own error panics and returns the error:
+	// pass it on, or a failure inside the redirected value is silently lost
+	// and the output is cut short.
+	if err := e.marshal(iv, opts); err != nil {
+		e.error(err)
+	}
 }
 
 func marshalerTrustEncoder(e *encodeState, v reflect.Value, opts encOpts) {
